@@ -23,6 +23,7 @@ if kill:
 
             def put(self, item):
                 if (gg, ww) == (g, w) and Q.n == k:
+                    open(out + ".killed", "w").close()      # the fault was really injected (a worker may send fewer messages)
                     os.kill(os.getpid(), signal.SIGKILL)
                 Q.n += 1
                 qu.put(item)
